@@ -182,16 +182,18 @@ fn gen_block<B: ToTokens>(
         let quoted_fields: Vec<_> = param_names
             .iter()
             .filter(|(param, _)| {
-                if args.skips.contains(param) {
+                if args.skip_all || args.skips.contains(param) {
                     return false;
                 }
 
                 // If any parameters have the same name as a custom field, skip
                 // and allow them to be formatted by the custom field.
                 if let Some(ref fields) = args.fields {
+                    // (a custom field replaces a parameter only if it is a
+                    // single identifier with the parameter's name: `a.a` is a
+                    // different field than `a`)
                     fields.0.iter().all(|Field { ref name, .. }| {
-                        let first = name.first();
-                        first != name.last() || !first.iter().any(|name| name == &param)
+                        name.len() != 1 || !name.first().iter().any(|name| name == &param)
                     })
                 } else {
                     true
